@@ -367,6 +367,57 @@ func allRolesGenesis(holder string) *ct.GenesisState {
 	return gs
 }
 
+// c20Extremes: every extreme configured value against every extreme request value, through typed requests on the
+// monitored engine (whose crash tap reports any recovered panic): burn limits x deposit amounts, body-size limits x
+// body lengths, thresholds x attestation lengths, extreme inbound amounts.
+func c20Extremes(rc *RunCtx) {
+	neg := func(v *big.Int) *big.Int { return new(big.Int).Neg(v) }
+	vals := []*big.Int{big.NewInt(0), big.NewInt(1), big.NewInt(-1), pow2(63), new(big.Int).Sub(Two64, big.NewInt(1)), Two64, Two255, Max256, neg(Two255), neg(Max256), new(big.Int).Sub(Two255, big.NewInt(1))}
+	for pass := 0; pass < 2; pass++ {
+		if pass%rc.NShards != rc.Shard%2 || rc.Shard > 1 {
+			continue
+		}
+		e, err := StdEngine(rc, pass == 1, false, nil)
+		if err != nil {
+			rc.Cov.Inconclusive("c20 extremes: " + err.Error())
+			continue
+		}
+		e.LightQueries = true
+		from := Acct(RichIx)
+		if pass == 1 {
+			from = Acct(4)
+		}
+		nonce := uint64(4_400_000)
+		for li, lim := range vals {
+			for _, tok := range []string{"uusdc", "UUSDC"}[:1+li%2] {
+				e.Exec(Tx{Msgs: msgs1(&ct.MsgSetMaxBurnAmountPerMessage{From: e.M.TC, LocalToken: tok, Amount: mkInt(lim)}), Note: "C20 extremes: burn limit"})
+			}
+			for ai, amt := range vals {
+				var m sdk.Msg = &ct.MsgDepositForBurn{From: from, Amount: mkInt(amt), DestinationDomain: 0, MintRecipient: Structured32(9), BurnToken: e.MintDenom()}
+				if (li+ai)%2 == 1 {
+					m = &ct.MsgDepositForBurnWithCaller{From: from, Amount: mkInt(amt), DestinationDomain: 1, MintRecipient: Structured32(9), BurnToken: e.MintDenom(), DestinationCaller: Structured32(8)}
+				}
+				e.Exec(Tx{Msgs: msgs1(m), Note: "C20 extremes: deposit amount x burn limit"})
+				rc.Cov.Cell("C20_extremes", "deposit-x-limit")
+				if li%4 == 0 && amt.Sign() >= 0 {
+					nonce++
+					raw := StdInbound(nonce, ai%NAccounts, amt).Bytes()
+					e.Exec(Tx{Msgs: msgs1(&ct.MsgReceiveMessage{From: Acct(UserIx), Message: raw, Attestation: e.Attest(raw, 0)}), Note: "C20 extremes: inbound amount"})
+					rc.Cov.Cell("C20_extremes", "inbound-amount")
+				}
+			}
+		}
+		for _, sz := range []uint64{0, 1, 116, 131, 132, 133, 8000, 1 << 31, 1 << 32, 1<<63 - 1, 1 << 63, ^uint64(0)} {
+			e.Exec(Tx{Msgs: msgs1(&ct.MsgUpdateMaxMessageBodySize{From: e.M.Owner, MessageSize: sz}), Note: "C20 extremes: max body size"})
+			for _, bl := range []int{0, 1, 116, 131, 132, 133, 7999, 8000, 8001, 70000} {
+				e.Exec(Tx{Msgs: msgs1(&ct.MsgSendMessage{From: Acct(UserIx), DestinationDomain: 0, Recipient: Structured32(4), MessageBody: make([]byte, bl)}), Note: "C20 extremes: body length x max body size"})
+				rc.Cov.Cell("C20_extremes", "body-x-max")
+			}
+			e.Exec(Tx{Msgs: msgs1(&ct.MsgDepositForBurn{From: from, Amount: mkInt(big.NewInt(1)), DestinationDomain: 0, MintRecipient: Structured32(9), BurnToken: e.MintDenom()}), Note: "C20 extremes: deposit x max body size"})
+		}
+	}
+}
+
 func c20States() []c20State {
 	mkChain := func(rc *RunCtx, gs *ct.GenesisState, cfgmut func(*chain.Config)) (*chain.Chain, error) {
 		f, allow := DefaultFunding(rc.Rand, false)
@@ -738,6 +789,7 @@ func init() {
 				return
 			}
 			c20Tx(rc, rc.Pick(12, 48), rc.Pick(6000, 15000))
+			c20Extremes(rc)
 			c20Decoders(rc, rc.Pick(3000, 100000))
 			if rc.Shard == 0 {
 				c20CLI(rc, rc.Pick(9000, 40000))
